@@ -173,6 +173,7 @@ func runC06(c *report.Ctx) {
 	ruleSoleWriter(c)
 	ruleNoTxUnderUpdate(c, 8)
 	ruleMemoryTipFollowsPersistedTip(c) // after a restart the in-memory tip is the persisted one
+	ruleTaskQueuedAfterDurableMarker(c)
 
 	c.Rule("step-table", "each logical step performs all its mutations and its progress marker inside one Update closure", 9)
 	upd := fn(c, pkgDB, "", "Update")
@@ -245,46 +246,7 @@ func runC06(c *report.Ctx) {
 
 	// ---- resumption ---------------------------------------------------------------------------------------
 	c.Rule("resumption", "restart resumes: removal for every wallet flagged removed, import for every wallet not ready; catch-up from synced-to + 1", 3)
-	worker := fn(c, pkgWallet, "", "worker")
-	pushImport := fn(c, pkgWallet, "WalletTaskChan", "PushImport")
-	pushRemove := fn(c, pkgWallet, "WalletTaskChan", "PushRemove")
-	getAll := fn(c, pkgTxmgr, "SyncStore", "GetAllWalletStatus")
-	isRemoved := fn(c, pkgTxmgr, "WalletStatus", "IsRemoved")
-	ready := fn(c, pkgTxmgr, "WalletStatus", "Ready")
-	if worker != nil && pushImport != nil && pushRemove != nil && getAll != nil && isRemoved != nil && ready != nil {
-		var scan *ssa.Function
-		for _, af := range closuresOf(p, worker) {
-			if len(calls(af, getAll)) > 0 {
-				scan = af
-			}
-		}
-		if scan == nil {
-			c.Fail(sk(worker)+":startup-scan", "the worker no longer scans all wallet statuses at start-up", p.Pos(worker.Pos()))
-		} else {
-			okR, okI := false, false
-			for _, s := range calls(scan, pushRemove) {
-				if loopHeaderOf(s.Block()) != nil && an.AnyAtom(p.GuardsOf(s), func(a an.Atom) bool { return an.BoolCall(a, isRemoved, "", true) }) {
-					okR = true
-				}
-			}
-			for _, s := range calls(scan, pushImport) {
-				gs := p.GuardsOf(s)
-				if loopHeaderOf(s.Block()) != nil && an.AnyAtom(gs, func(a an.Atom) bool { return an.BoolCall(a, ready, "", false) }) {
-					okI = true
-				}
-			}
-			if okR {
-				c.OK(sk(worker)+":removed=>PushRemove", "per status row, under IsRemoved()", p.Pos(scan.Pos()))
-			} else {
-				c.Fail(sk(worker)+":removed=>PushRemove", "a removal interrupted by a crash is not resumed at start-up", p.Pos(scan.Pos()))
-			}
-			if okI {
-				c.OK(sk(worker)+":!ready=>PushImport", "per status row, under !Ready()", p.Pos(scan.Pos()))
-			} else {
-				c.Fail(sk(worker)+":!ready=>PushImport", "an import interrupted by a crash is not resumed at start-up", p.Pos(scan.Pos()))
-			}
-		}
-	}
+	ruleRestartResumesTasks(c)
 	start := fn(c, pkgWallet, "NtfnsHandler", "Start")
 	syncedTo := fn(c, pkgWallet, "WalletManager", "SyncedTo")
 	fetchBlk := "ChainFetcher.FetchBlockByHeight"
@@ -336,4 +298,52 @@ func runC06(c *report.Ctx) {
 	ruleNoMemoryTipUnderUpdate(c, false)
 	ruleFastForwardGate(c)
 	ruleReadySet(c, false, true)
+}
+
+// ruleRestartResumesTasks (C06 inside "resumption", C08 as "removal-resumed-after-restart"): the worker's start-up scan.
+func ruleRestartResumesTasks(c *report.Ctx) {
+	p := c.P
+	worker := fn(c, pkgWallet, "", "worker")
+	pushImport := fn(c, pkgWallet, "WalletTaskChan", "PushImport")
+	pushRemove := fn(c, pkgWallet, "WalletTaskChan", "PushRemove")
+	getAll := fn(c, pkgTxmgr, "SyncStore", "GetAllWalletStatus")
+	isRemoved := fn(c, pkgTxmgr, "WalletStatus", "IsRemoved")
+	ready := fn(c, pkgTxmgr, "WalletStatus", "Ready")
+	if worker != nil && pushImport != nil && pushRemove != nil && getAll != nil && isRemoved != nil && ready != nil {
+		var scan *ssa.Function
+		for _, af := range closuresOf(p, worker) {
+			if len(calls(af, getAll)) > 0 {
+				scan = af
+			}
+		}
+		if scan == nil {
+			c.Fail(sk(worker)+":startup-scan", "the worker no longer scans all wallet statuses at start-up", p.Pos(worker.Pos()))
+		} else {
+			okR, okI := false, false
+			for _, s := range calls(scan, pushRemove) {
+				gs := p.GuardsOf(s)
+				// a flagged wallet is a ready one (only ready wallets can be flagged): the push must not also demand !Ready()
+				if loopHeaderOf(s.Block()) != nil && an.AnyAtom(gs, func(a an.Atom) bool { return an.BoolCall(a, isRemoved, "", true) }) &&
+					!an.AnyAtom(gs, func(a an.Atom) bool { return an.BoolCall(a, ready, "", false) }) {
+					okR = true
+				}
+			}
+			for _, s := range calls(scan, pushImport) {
+				gs := p.GuardsOf(s)
+				if loopHeaderOf(s.Block()) != nil && an.AnyAtom(gs, func(a an.Atom) bool { return an.BoolCall(a, ready, "", false) }) {
+					okI = true
+				}
+			}
+			if okR {
+				c.OK(sk(worker)+":removed=>PushRemove", "per status row, under IsRemoved()", p.Pos(scan.Pos()))
+			} else {
+				c.Fail(sk(worker)+":removed=>PushRemove", "a removal interrupted by a crash or a restart is not resumed at start-up (no PushRemove under IsRemoved() alone — wallets are flagged only when ready, so a scan that skips ready wallets first never sees them)", p.Pos(scan.Pos()))
+			}
+			if okI {
+				c.OK(sk(worker)+":!ready=>PushImport", "per status row, under !Ready()", p.Pos(scan.Pos()))
+			} else {
+				c.Fail(sk(worker)+":!ready=>PushImport", "an import interrupted by a crash is not resumed at start-up", p.Pos(scan.Pos()))
+			}
+		}
+	}
 }
